@@ -606,3 +606,621 @@ Proof.
   cbv zeta. pose proof (cp_key_s2c s) as K. unfold s2c in *.
   destruct (s_kind s); simpl; repeat split; auto; try congruence.
 Qed.
+
+(* ================================================================== *)
+(* 4. receiver: pool reservations are exactly the live addresses       *)
+(* ================================================================== *)
+Definition lease_v (pools : list (N * pool)) (p k : N) : option N :=
+  match aget N.eqb p pools with Some pl => aget N.eqb k (a_leases (p_al pl)) | None => None end.
+Definition lease_d (pools : list (N * pdpool)) (p k : N) : option N :=
+  match aget N.eqb p pools with Some d => aget N.eqb k (a_leases (d_al d)) | None => None end.
+(* who holds (family, pool, address / prefix index) on the standby *)
+Definition lease_at (g : registry) (x : N * N * N) : option N :=
+  let '(f, p, k) := x in
+  if N.eqb f 4 then lease_v (g_v4 g) p k
+  else if N.eqb f 6 then lease_v (g_na g) p k
+  else if N.eqb f 7 then lease_d (g_pd g) p k
+  else None.
+
+Lemma aget_upd_pool pools n f p :
+  aget N.eqb p (upd_pool pools n f) =
+  match aget N.eqb p pools with
+  | Some pl => Some (if N.eqb p n then mkpool (p_start pl) (p_end pl) (p_excl pl) (f pl) else pl)
+  | None => None
+  end.
+Proof.
+  induction pools as [|[n0 pl0] r IH]; simpl; [reflexivity|].
+  destruct (N.eqb n0 n) eqn:E1; simpl; destruct (N.eqb p n0) eqn:E2; auto.
+  - apply N.eqb_eq in E1, E2. subst. rewrite N.eqb_refl. reflexivity.
+  - apply N.eqb_eq in E2. subst. rewrite E1. reflexivity.
+Qed.
+
+Lemma aget_upd_pd pools n f p :
+  aget N.eqb p (upd_pd pools n f) =
+  match aget N.eqb p pools with
+  | Some d => Some (if N.eqb p n then mkpd (d_base d) (d_netbits d) (d_plen d) (d_count d) (f d) else d)
+  | None => None
+  end.
+Proof.
+  induction pools as [|[n0 d0] r IH]; simpl; [reflexivity|].
+  destruct (N.eqb n0 n) eqn:E1; simpl; destruct (N.eqb p n0) eqn:E2; auto.
+  - apply N.eqb_eq in E1, E2. subst. rewrite N.eqb_refl. reflexivity.
+  - apply N.eqb_eq in E2. subst. rewrite E1. reflexivity.
+Qed.
+
+Lemma lease_reserve al a sid k :
+  aget N.eqb k (a_leases (a_reserve al a sid)) =
+  if N.eqb k a then (match aget N.eqb a (a_leases al) with Some o => Some o | None => Some sid end)
+  else aget N.eqb k (a_leases al).
+Proof.
+  unfold a_reserve. destruct (aget N.eqb a (a_leases al)) as [o|] eqn:E; simpl.
+  - destruct (N.eqb_spec k a) as [->|]; [exact E|reflexivity].
+  - rewrite (aget_aset N.eqb N.eqb_eq). reflexivity.
+Qed.
+
+Lemma lease_release al a back k :
+  aget N.eqb k (a_leases (a_release al a back)) = if N.eqb k a then None else aget N.eqb k (a_leases al).
+Proof.
+  unfold a_release. destruct (aget N.eqb a (a_leases al)) as [o|] eqn:E; simpl.
+  - rewrite (aget_adel N.eqb N.eqb_eq). reflexivity.
+  - destruct (N.eqb_spec k a) as [->|]; [exact E|reflexivity].
+Qed.
+
+Lemma find_upd_pool pools n f a :
+  option_map fst (find (fun np => p_contains (snd np) a) (upd_pool pools n f)) =
+  option_map fst (find (fun np => p_contains (snd np) a) pools).
+Proof.
+  induction pools as [|[n0 pl0] r IH]; simpl; [reflexivity|].
+  destruct (N.eqb n0 n); simpl; unfold p_contains; simpl; fold (p_contains pl0 a);
+    destruct (p_contains pl0 a); simpl; auto.
+Qed.
+
+Lemma resolve_v_upd pools n f name a : resolve_v (upd_pool pools n f) name a = resolve_v pools name a.
+Proof.
+  unfold resolve_v. rewrite aget_upd_pool. destruct (aget N.eqb name pools); [reflexivity|].
+  pose proof (find_upd_pool pools n f a) as H.
+  destruct (find _ (upd_pool pools n f)), (find _ pools); simpl in H; congruence.
+Qed.
+
+Lemma p2i_geo d al a len :
+  prefix_to_index (mkpd (d_base d) (d_netbits d) (d_plen d) (d_count d) al) a len = prefix_to_index d a len.
+Proof. reflexivity. Qed.
+
+Lemma find_upd_pd pools n f p :
+  option_map fst (find (fun np => d_contains (snd np) p) (upd_pd pools n f)) =
+  option_map fst (find (fun np => d_contains (snd np) p) pools).
+Proof.
+  induction pools as [|[n0 d0] r IH]; simpl; [reflexivity|].
+  destruct (N.eqb n0 n); simpl; unfold d_contains; simpl; rewrite ?p2i_geo; fold (d_contains d0 p);
+    destruct (d_contains d0 p); simpl; auto.
+Qed.
+
+Lemma resolve_d_upd pools n f name p : resolve_d (upd_pd pools n f) name p = resolve_d pools name p.
+Proof.
+  unfold resolve_d. rewrite aget_upd_pd. destruct (aget N.eqb name pools); [reflexivity|].
+  pose proof (find_upd_pd pools n f p) as H.
+  destruct (find _ (upd_pd pools n f)), (find _ pools); simpl in H; congruence.
+Qed.
+
+Lemma resolve_v_exists pools name a n : resolve_v pools name a = Some n -> exists pl, aget N.eqb n pools = Some pl.
+Proof.
+  unfold resolve_v. destruct (aget N.eqb name pools) as [pl|] eqn:E.
+  - intros H; inversion H; subst. eauto.
+  - destruct (find _ pools) as [[n0 pl0]|] eqn:F; [|discriminate]. intros H; inversion H; subst; simpl.
+    apply find_some in F. destruct F as [F _]. clear -F.
+    induction pools as [|[n1 pl1] r IH]; simpl in *; [contradiction|].
+    destruct (N.eqb_spec n n1); [eauto|]. destruct F as [F|F]; [inversion F; subst; contradiction|auto].
+Qed.
+
+(* effect of a reservation / release on the lease map, one family *)
+Lemma lease_v_reserve pools name a sid p k :
+  lease_v (reserve_v pools name a sid) p k =
+  match resolve_v pools name a with
+  | Some n => if N.eqb p n && N.eqb k a
+              then (match lease_v pools p k with Some o => Some o | None => Some sid end)
+              else lease_v pools p k
+  | None => lease_v pools p k
+  end.
+Proof.
+  unfold reserve_v. destruct (resolve_v pools name a) as [n|] eqn:R; [|reflexivity].
+  unfold lease_v. rewrite aget_upd_pool.
+  destruct (aget N.eqb p pools) as [pl|] eqn:E.
+  - destruct (N.eqb_spec p n) as [->|Hp]; simpl; [|reflexivity].
+    unfold p_reserve. rewrite lease_reserve. destruct (N.eqb_spec k a) as [->|]; reflexivity.
+  - destruct (N.eqb_spec p n) as [->|Hp]; simpl; [|reflexivity].
+    destruct (resolve_v_exists _ _ _ _ R) as [pl Hpl]. congruence.
+Qed.
+
+Lemma lease_v_release pools name a p k :
+  lease_v (release_v pools name a) p k =
+  match resolve_v pools name a with
+  | Some n => if N.eqb p n && N.eqb k a then None else lease_v pools p k
+  | None => lease_v pools p k
+  end.
+Proof.
+  unfold release_v. destruct (resolve_v pools name a) as [n|] eqn:R; [|reflexivity].
+  unfold lease_v. rewrite aget_upd_pool.
+  destruct (aget N.eqb p pools) as [pl|] eqn:E.
+  - destruct (N.eqb_spec p n) as [->|Hp]; simpl; [|reflexivity].
+    unfold p_release. rewrite lease_release. destruct (N.eqb_spec k a) as [->|]; reflexivity.
+  - destruct (N.eqb p n && N.eqb k a); reflexivity.
+Qed.
+
+(* the single (pool, index) a prefix reserves, as resv_cp computes it *)
+Definition claim_d (pools : list (N * pdpool)) (name : N) (p : N * N) : option (N * N) :=
+  match resolve_d pools name p with
+  | Some n => match aget N.eqb n pools with
+              | Some d => match prefix_to_index d (fst p) (snd p) with Some i => Some (n, i) | None => None end
+              | None => None
+              end
+  | None => None
+  end.
+
+Lemma lease_d_reserve pools name pfx sid p k :
+  lease_d (reserve_d pools name pfx sid) p k =
+  match claim_d pools name pfx with
+  | Some (n, i) => if N.eqb p n && N.eqb k i
+                   then (match lease_d pools p k with Some o => Some o | None => Some sid end)
+                   else lease_d pools p k
+  | None => lease_d pools p k
+  end.
+Proof.
+  unfold reserve_d, claim_d. destruct (resolve_d pools name pfx) as [n|] eqn:R; [|reflexivity].
+  unfold lease_d. rewrite aget_upd_pd.
+  destruct (aget N.eqb n pools) as [dn|] eqn:En.
+  - destruct (aget N.eqb p pools) as [d|] eqn:E.
+    + destruct (N.eqb_spec p n) as [->|Hp]; simpl.
+      * assert (d = dn) by congruence. subst d. unfold d_reserve.
+        destruct (prefix_to_index dn (fst pfx) (snd pfx)) as [i|]; simpl; [|reflexivity].
+        rewrite N.eqb_refl. simpl. rewrite lease_reserve. destruct (N.eqb_spec k i) as [->|]; reflexivity.
+      * destruct (prefix_to_index dn (fst pfx) (snd pfx)) as [i|]; [|reflexivity].
+        destruct (N.eqb_spec p n); [contradiction|reflexivity].
+    + destruct (prefix_to_index dn (fst pfx) (snd pfx)) as [i|]; [|reflexivity].
+      destruct (N.eqb_spec p n) as [->|]; [congruence|reflexivity].
+  - destruct (aget N.eqb p pools) as [d|] eqn:E; [|reflexivity].
+    destruct (N.eqb_spec p n) as [->|]; [congruence|reflexivity].
+Qed.
+
+Lemma lease_d_release pools name pfx p k :
+  lease_d (release_d pools name pfx) p k =
+  match claim_d pools name pfx with
+  | Some (n, i) => if N.eqb p n && N.eqb k i then None else lease_d pools p k
+  | None => lease_d pools p k
+  end.
+Proof.
+  unfold release_d, claim_d. destruct (resolve_d pools name pfx) as [n|] eqn:R; [|reflexivity].
+  unfold lease_d. rewrite aget_upd_pd.
+  destruct (aget N.eqb n pools) as [dn|] eqn:En.
+  - destruct (aget N.eqb p pools) as [d|] eqn:E.
+    + destruct (N.eqb_spec p n) as [->|Hp]; simpl.
+      * assert (d = dn) by congruence. subst d. unfold d_release.
+        destruct (prefix_to_index dn (fst pfx) (snd pfx)) as [i|]; simpl; [|reflexivity].
+        rewrite N.eqb_refl. simpl. rewrite lease_release. destruct (N.eqb_spec k i) as [->|]; reflexivity.
+      * destruct (prefix_to_index dn (fst pfx) (snd pfx)) as [i|]; [|reflexivity].
+        destruct (N.eqb_spec p n); [contradiction|reflexivity].
+    + destruct (prefix_to_index dn (fst pfx) (snd pfx)) as [i|]; [|reflexivity].
+      destruct (N.eqb_spec p n) as [->|]; [congruence|reflexivity].
+  - destruct (aget N.eqb p pools) as [d|] eqn:E; [|reflexivity].
+    destruct (N.eqb_spec p n) as [->|]; [congruence|reflexivity].
+Qed.
+
+Lemma claim_d_upd pools n f name p : claim_d (upd_pd pools n f) name p = claim_d pools name p.
+Proof.
+  unfold claim_d. rewrite resolve_d_upd. destruct (resolve_d pools name p) as [m|]; [|reflexivity].
+  rewrite aget_upd_pd. destruct (aget N.eqb m pools) as [d|]; [|reflexivity].
+  destruct (N.eqb m n); reflexivity.
+Qed.
+
+(* ---------- registry level ---------- *)
+Definition teqb (a b : N * N * N) : bool :=
+  let '(f1, p1, k1) := a in let '(f2, p2, k2) := b in N.eqb f1 f2 && N.eqb p1 p2 && N.eqb k1 k2.
+Lemma teqb_eq a b : teqb a b = true <-> a = b.
+Proof.
+  destruct a as [[f1 p1] k1], b as [[f2 p2] k2]. unfold teqb. rewrite !andb_true_iff, !N.eqb_eq.
+  split; [intros [[-> ->] ->]; reflexivity|intros H; inversion H; auto].
+Qed.
+
+Definition part4 (g : registry) (c : checkpoint) : list ((N * N * N) * N) :=
+  match c_v4 c with
+  | Some a => match resolve_v (g_v4 g) (c_v4pool c) a with Some n => [((4%N, n, a), c_sid c)] | None => [] end
+  | None => [] end.
+Definition part6 (g : registry) (c : checkpoint) : list ((N * N * N) * N) :=
+  match c_v6 c with
+  | Some a => match resolve_v (g_na g) (c_napool c) a with Some n => [((6%N, n, a), c_sid c)] | None => [] end
+  | None => [] end.
+Definition part7 (g : registry) (c : checkpoint) : list ((N * N * N) * N) :=
+  match c_pd c with
+  | Some p => if N.ltb 0 (snd p)
+              then match claim_d (g_pd g) (c_pdpool c) p with Some (n, i) => [((7%N, n, i), c_sid c)] | None => [] end
+              else []
+  | None => [] end.
+
+Lemma resv_parts g c : resv_cp g c = part4 g c ++ part6 g c ++ part7 g c.
+Proof.
+  unfold resv_cp, part4, part6, part7, claim_d. f_equal. f_equal.
+  destruct (c_pd c) as [p|]; [|reflexivity]. destruct (N.ltb 0 (snd p)); [|reflexivity].
+  destruct (resolve_d (g_pd g) (c_pdpool c) p) as [n|]; [|reflexivity].
+  destruct (aget N.eqb n (g_pd g)) as [d|]; [|reflexivity].
+  destruct (prefix_to_index d (fst p) (snd p)); reflexivity.
+Qed.
+
+Definition claims (g : registry) (c : checkpoint) : list (N * N * N) := map fst (resv_cp g c).
+Definition claimed (g : registry) (c : checkpoint) (x : N * N * N) : bool := existsb (teqb x) (claims g c).
+
+Lemma claimed_parts g c f p k :
+  claimed g c (f, p, k) =
+  (match c_v4 c with
+   | Some a => match resolve_v (g_v4 g) (c_v4pool c) a with Some n => N.eqb f 4 && N.eqb p n && N.eqb k a | None => false end
+   | None => false end) ||
+  (match c_v6 c with
+   | Some a => match resolve_v (g_na g) (c_napool c) a with Some n => N.eqb f 6 && N.eqb p n && N.eqb k a | None => false end
+   | None => false end) ||
+  (match c_pd c with
+   | Some pf => if N.ltb 0 (snd pf)
+                then match claim_d (g_pd g) (c_pdpool c) pf with Some (n, i) => N.eqb f 7 && N.eqb p n && N.eqb k i | None => false end
+                else false
+   | None => false end).
+Proof.
+  unfold claimed, claims. rewrite resv_parts, !map_app, !existsb_app, orb_assoc.
+  unfold part4, part6, part7. f_equal; [f_equal|].
+  - destruct (c_v4 c); [|reflexivity]. destruct (resolve_v _ _ _); simpl; [rewrite orb_false_r|]; reflexivity.
+  - destruct (c_v6 c); [|reflexivity]. destruct (resolve_v _ _ _); simpl; [rewrite orb_false_r|]; reflexivity.
+  - destruct (c_pd c) as [pf|]; [|reflexivity]. destruct (N.ltb 0 (snd pf)); [|reflexivity].
+    destruct (claim_d _ _ _) as [[n i]|]; simpl; [rewrite orb_false_r|]; reflexivity.
+Qed.
+
+Ltac split_claims g c :=
+  destruct (c_v4 c) as [a4|]; [destruct (resolve_v (g_v4 g) (c_v4pool c) a4) as [n4|] eqn:R4|];
+  (destruct (c_v6 c) as [a6|]; [destruct (resolve_v (g_na g) (c_napool c) a6) as [n6|] eqn:R6|]);
+  (destruct (c_pd c) as [pf|];
+   [destruct (N.ltb 0 (snd pf)); [destruct (claim_d (g_pd g) (c_pdpool c) pf) as [[n7 i7]|] eqn:R7|]|]).
+
+Ltac fam_cases f :=
+  destruct (N.eqb_spec f 4) as [->|H4]; [cbn; rewrite ?orb_false_r; reflexivity|];
+  destruct (N.eqb_spec f 6) as [->|H6]; [cbn; rewrite ?orb_false_r; reflexivity|];
+  destruct (N.eqb_spec f 7) as [->|H7]; [cbn; rewrite ?orb_false_r; reflexivity|];
+  replace (N.eqb f 4) with false by (symmetry; apply N.eqb_neq; exact H4);
+  replace (N.eqb f 6) with false by (symmetry; apply N.eqb_neq; exact H6);
+  replace (N.eqb f 7) with false by (symmetry; apply N.eqb_neq; exact H7);
+  reflexivity.
+
+Lemma lease_at_reserve_cp g c x :
+  lease_at (reserve_cp g c) x =
+  if claimed g c x then (match lease_at g x with Some o => Some o | None => Some (c_sid c) end) else lease_at g x.
+Proof.
+  destruct x as [[f p] k]. rewrite claimed_parts. unfold lease_at, reserve_cp. cbn [g_v4 g_na g_pd].
+  split_claims g c; rewrite ?lease_v_reserve, ?lease_d_reserve, ?R4, ?R6, ?R7; fam_cases f.
+Qed.
+
+Lemma lease_at_release_cp g c x :
+  lease_at (release_cp repaired g c) x = if claimed g c x then None else lease_at g x.
+Proof.
+  destruct x as [[f p] k]. rewrite claimed_parts. unfold lease_at, release_cp. cbn [g_v4 g_na g_pd f_relall repaired].
+  split_claims g c; rewrite ?lease_v_release, ?lease_d_release, ?R4, ?R6, ?R7; fam_cases f.
+Qed.
+
+Lemma resolve_v_reserve pools name a sid name' a' : resolve_v (reserve_v pools name a sid) name' a' = resolve_v pools name' a'.
+Proof. unfold reserve_v. destruct (resolve_v pools name a); [apply resolve_v_upd|reflexivity]. Qed.
+Lemma resolve_v_release pools name a name' a' : resolve_v (release_v pools name a) name' a' = resolve_v pools name' a'.
+Proof. unfold release_v. destruct (resolve_v pools name a); [apply resolve_v_upd|reflexivity]. Qed.
+Lemma claim_d_reserve pools name p sid name' p' : claim_d (reserve_d pools name p sid) name' p' = claim_d pools name' p'.
+Proof. unfold reserve_d. destruct (resolve_d pools name p); [apply claim_d_upd|reflexivity]. Qed.
+Lemma claim_d_release pools name p name' p' : claim_d (release_d pools name p) name' p' = claim_d pools name' p'.
+Proof. unfold release_d. destruct (resolve_d pools name p); [apply claim_d_upd|reflexivity]. Qed.
+
+Lemma resv_reserve g c c' : resv_cp (reserve_cp g c) c' = resv_cp g c'.
+Proof.
+  rewrite !resv_parts. unfold part4, part6, part7, reserve_cp. cbn [g_v4 g_na g_pd].
+  f_equal; [|f_equal].
+  - destruct (c_v4 c'); [|reflexivity]. destruct (c_v4 c); [rewrite resolve_v_reserve|]; reflexivity.
+  - destruct (c_v6 c'); [|reflexivity]. destruct (c_v6 c); [rewrite resolve_v_reserve|]; reflexivity.
+  - destruct (c_pd c') as [p'|]; [|reflexivity]. destruct (N.ltb 0 (snd p')); [|reflexivity].
+    destruct (c_pd c) as [p|]; [|reflexivity]. destruct (N.ltb 0 (snd p)); [rewrite claim_d_reserve|]; reflexivity.
+Qed.
+Lemma resv_release g c c' : resv_cp (release_cp repaired g c) c' = resv_cp g c'.
+Proof.
+  rewrite !resv_parts. unfold part4, part6, part7, release_cp. cbn [g_v4 g_na g_pd f_relall repaired].
+  f_equal; [|f_equal].
+  - destruct (c_v4 c'); [|reflexivity]. destruct (c_v4 c); [rewrite resolve_v_release|]; reflexivity.
+  - destruct (c_v6 c'); [|reflexivity]. destruct (c_v6 c); [rewrite resolve_v_release|]; reflexivity.
+  - destruct (c_pd c') as [p'|]; [|reflexivity]. destruct (N.ltb 0 (snd p')); [|reflexivity].
+    destruct (c_pd c) as [p|]; [|reflexivity]. destruct (N.ltb 0 (snd p)); [rewrite claim_d_release|]; reflexivity.
+Qed.
+
+Lemma resv_sid g c x sid : In (x, sid) (resv_cp g c) -> sid = c_sid c.
+Proof.
+  rewrite resv_parts. unfold part4, part6, part7. rewrite !in_app_iff.
+  destruct (c_v4 c); [destruct (resolve_v _ _ _)|]; destruct (c_v6 c); try destruct (resolve_v (g_na g) _ _);
+    destruct (c_pd c) as [pf|]; try destruct (N.ltb 0 (snd pf)); try destruct (claim_d _ _ _) as [[? ?]|];
+    simpl; intuition; try congruence.
+Qed.
+
+Lemma claimed_in g c x : claimed g c x = true <-> In x (claims g c).
+Proof.
+  unfold claimed. rewrite existsb_exists. split.
+  - intros (y & Hy & E). apply teqb_eq in E. subst; exact Hy.
+  - intros H. exists x. split; [exact H|apply teqb_eq; reflexivity].
+Qed.
+Lemma claims_in g c x : In x (claims g c) <-> In (x, c_sid c) (resv_cp g c).
+Proof.
+  unfold claims. rewrite in_map_iff. split.
+  - intros ([x' sid] & E & H). simpl in E; subst x'. rewrite <- (resv_sid _ _ _ _ H). exact H.
+  - intros H. exists (x, c_sid c). auto.
+Qed.
+
+(* ---------- association lists with unique keys ---------- *)
+Section AssocIn.
+  Context {K V : Type} (eqb : K -> K -> bool) (eqb_eq : forall a b, eqb a b = true <-> a = b).
+  Lemma in_adel k k' (v' : V) l : In (k', v') (adel eqb k l) <-> k' <> k /\ In (k', v') l.
+  Proof.
+    induction l as [|[k0 v0] r IH]; simpl; [tauto|].
+    destruct (eqb k k0) eqn:E.
+    - apply eqb_eq in E; subst k0. rewrite IH. split; [tauto|]. intros [A [B|B]]; [inversion B; subst; contradiction|tauto].
+    - simpl. rewrite IH. split.
+      + intros [B|B]; [inversion B; subst; split; [|auto]|tauto]. intros ->. rewrite (eqb_refl' eqb eqb_eq) in E. discriminate.
+      + tauto.
+  Qed.
+  Lemma keys_adel k (l : list (K * V)) x : In x (map fst (adel eqb k l)) -> In x (map fst l).
+  Proof. rewrite !in_map_iff. intros ([k' v'] & E & H). apply in_adel in H. exists (k', v'). tauto. Qed.
+  Lemma nodup_adel k (l : list (K * V)) : NoDup (map fst l) -> NoDup (map fst (adel eqb k l)).
+  Proof.
+    induction l as [|[k0 v0] r IH]; simpl; intros H; [constructor|]. inversion H; subst.
+    destruct (eqb k k0); [auto|]. simpl. constructor; [|auto]. intros G. apply keys_adel in G. contradiction.
+  Qed.
+  Lemma keys_aset k (v : V) l x : In x (map fst (aset eqb k v l)) -> x = k \/ In x (map fst l).
+  Proof.
+    induction l as [|[k0 v0] r IH]; simpl; [intros [A|[]]; auto|].
+    destruct (eqb k k0) eqn:E; simpl; [apply eqb_eq in E; subst; intros [A|A]; auto|]. intros [A|A]; [auto|]. apply IH in A. tauto.
+  Qed.
+  Lemma nodup_aset k (v : V) l : NoDup (map fst l) -> NoDup (map fst (aset eqb k v l)).
+  Proof.
+    induction l as [|[k0 v0] r IH]; simpl; intros H; [constructor; [simpl; tauto|constructor]|]. inversion H; subst.
+    destruct (eqb k k0) eqn:E; simpl.
+    - apply eqb_eq in E; subst. constructor; auto.
+    - constructor; [|auto]. intros G. apply keys_aset in G. destruct G as [->|G]; [|contradiction].
+      rewrite (eqb_refl' eqb eqb_eq) in E. discriminate.
+  Qed.
+  Lemma in_aset k (v : V) l k' v' : NoDup (map fst l) ->
+    (In (k', v') (aset eqb k v l) <-> (k' = k /\ v' = v) \/ (k' <> k /\ In (k', v') l)).
+  Proof.
+    induction l as [|[k0 v0] r IH]; simpl; intros H.
+    - split; [intros [A|[]]; inversion A; auto|intros [[-> ->]|[_ []]]; auto].
+    - inversion H; subst. destruct (eqb k k0) eqn:E; simpl.
+      + apply eqb_eq in E; subst k0. split.
+        * intros [A|A]; [inversion A; auto|]. right. split; [|auto]. intros ->. apply H2. apply in_map_iff. exists (k, v'); auto.
+        * intros [[-> ->]|[A [B|B]]]; [auto|inversion B; subst; contradiction|auto].
+      + rewrite (IH H3). split.
+        * intros [A|A]; [inversion A; subst; right; split; [|auto]|tauto].
+          intros ->. rewrite (eqb_refl' eqb eqb_eq) in E. discriminate.
+        * tauto.
+  Qed.
+  Lemma aget_in k (v : V) l : NoDup (map fst l) -> (aget eqb k l = Some v <-> In (k, v) l).
+  Proof.
+    induction l as [|[k0 v0] r IH]; simpl; intros H; [split; [discriminate|tauto]|]. inversion H; subst.
+    destruct (eqb k k0) eqn:E.
+    - apply eqb_eq in E; subst k0. split; [intros A; inversion A; auto|].
+      intros [A|A]; [inversion A; auto|]. exfalso. apply H2. apply in_map_iff. exists (k, v); auto.
+    - rewrite (IH H3). split; [auto|]. intros [A|A]; [inversion A; subst|auto].
+      rewrite (eqb_refl' eqb eqb_eq) in E. discriminate.
+  Qed.
+  Lemma aget_none k (l : list (K * V)) : aget eqb k l = None -> forall v, ~ In (k, v) l.
+  Proof.
+    induction l as [|[k0 v0] r IH]; simpl; intros H v; [tauto|]. destruct (eqb k k0) eqn:E; [discriminate|].
+    intros [A|A]; [inversion A; subst; rewrite (eqb_refl' eqb eqb_eq) in E; discriminate|exact (IH H v A)].
+  Qed.
+End AssocIn.
+
+Lemma aget_map {K V W} (eqb : K -> K -> bool) (f : V -> W) k (l : list (K * V)) :
+  aget eqb k (map (fun kv => (fst kv, f (snd kv))) l) = option_map f (aget eqb k l).
+Proof. induction l as [|[k0 v0] r IH]; simpl; [reflexivity|]. destruct (eqb k k0); [reflexivity|exact IH]. Qed.
+
+(* ---------- no two live sessions claim the same (family, pool, address) ---------- *)
+Definition uniq (g0 : registry) (live : list ((N * N) * session)) : Prop :=
+  NoDup (map fst (expected_leases g0 live)).
+
+Lemma nodup_app_disjoint {A} (l1 l2 : list A) x : NoDup (l1 ++ l2) -> In x l1 -> In x l2 -> False.
+Proof.
+  induction l1 as [|y r IH]; simpl; intros H H1 H2; [contradiction|]. inversion H as [|? ? Hn Hd]; subst.
+  destruct H1 as [->|H1]; [apply Hn, in_or_app; auto|exact (IH Hd H1 H2)].
+Qed.
+Lemma nodup_app_r {A} (l1 l2 : list A) : NoDup (l1 ++ l2) -> NoDup l2.
+Proof. induction l1; simpl; intros H; [exact H|]. inversion H; auto. Qed.
+
+Lemma uniq_conflict g0 live e1 e2 x :
+  uniq g0 live -> NoDup (map fst live) -> In e1 live -> In e2 live -> fst e1 <> fst e2 ->
+  In x (claims g0 (s2c (snd e1))) -> In x (claims g0 (s2c (snd e2))) -> False.
+Proof.
+  unfold uniq, expected_leases, claims.
+  induction live as [|e r IH]; simpl; intros Hu Hk H1 H2 Hne C1 C2; [contradiction|].
+  rewrite map_app in Hu. inversion Hk as [|? ? Hkn Hkd]; subst.
+  assert (T : forall e', In e' r -> In x (map fst (resv_cp g0 (s2c (snd e')))) ->
+              In x (map fst (flat_map (fun ks => resv_cp g0 (s2c (snd ks))) r))).
+  { intros e' He' Hx. apply in_map_iff in Hx. destruct Hx as (y & Ey & Hy). apply in_map_iff. exists y. split; [exact Ey|].
+    apply in_flat_map. exists e'. auto. }
+  destruct H1 as [->|H1], H2 as [->|H2].
+  - contradiction.
+  - exact (nodup_app_disjoint _ _ x Hu C1 (T _ H2 C2)).
+  - exact (nodup_app_disjoint _ _ x Hu C2 (T _ H1 C1)).
+  - exact (IH (nodup_app_r _ _ Hu) Hkd H1 H2 Hne C1 C2).
+Qed.
+
+(* ---------- the invariant ---------- *)
+Definition owner (g0 : registry) (live : list ((N * N) * session)) (x : N * N * N) (sid : N) : Prop :=
+  exists e, In e live /\ In (x, sid) (resv_cp g0 (s2c (snd e))).
+
+Definition pinv (g0 : registry) (rc : receiver) (live : list ((N * N) * session)) : Prop :=
+  rc_store rc = expected_store live /\ NoDup (map fst live) /\
+  (forall c', resv_cp (rc_reg rc) c' = resv_cp g0 c') /\
+  (forall x sid, lease_at (rc_reg rc) x = Some sid <-> owner g0 live x sid).
+
+Lemma claims_geo g g0 c : (forall c', resv_cp g c' = resv_cp g0 c') -> claims g c = claims g0 c.
+Proof. intros H. unfold claims. rewrite H. reflexivity. Qed.
+
+Lemma pinv_release g0 rc live k : pinv g0 rc live ->
+  let g1 := match aget keyeqb k (rc_store rc) with
+            | Some old => release_cp repaired (rc_reg rc) old | None => rc_reg rc end in
+  (forall c', resv_cp g1 c' = resv_cp g0 c') /\
+  (forall x sid, lease_at g1 x = Some sid <->
+     (owner g0 live x sid /\ forall olds, aget keyeqb k live = Some olds -> ~ In x (claims g0 (s2c olds)))).
+Proof.
+  intros (Hs & Hnd & Hgeo & Hl). cbv zeta. rewrite Hs. unfold expected_store. rewrite aget_map.
+  destruct (aget keyeqb k live) as [olds|]; simpl.
+  - split; [intros c'; rewrite resv_release; apply Hgeo|].
+    intros x sid. rewrite lease_at_release_cp.
+    destruct (claimed (rc_reg rc) (s2c olds) x) eqn:C.
+    + apply claimed_in in C. rewrite (claims_geo _ g0 _ Hgeo) in C.
+      split; [discriminate|]. intros [_ H]. exfalso. exact (H olds eq_refl C).
+    + split.
+      * intros H. split; [apply Hl, H|]. intros o E; inversion E; subst o. intros G.
+        rewrite <- (claims_geo _ g0 _ Hgeo) in G. apply claimed_in in G. congruence.
+      * intros [H _]. apply Hl, H.
+  - split; [exact Hgeo|]. intros x sid. split.
+    + intros H. split; [apply Hl, H|discriminate].
+    + intros [H _]. apply Hl, H.
+Qed.
+
+Lemma owner_claims g0 (e : (N * N) * session) x sid :
+  In (x, sid) (resv_cp g0 (s2c (snd e))) -> In x (claims g0 (s2c (snd e))).
+Proof. intros H. unfold claims. apply in_map_iff. exists (x, sid). auto. Qed.
+
+Lemma pinv_delete g0 rc live s last' :
+  pinv g0 rc live -> uniq g0 live ->
+  pinv g0 (recv_delete repaired (mkrecv last' (rc_store rc) (rc_reg rc)) (s2c s)) (adel keyeqb (sess_key s) live).
+Proof.
+  intros Hp Hu. pose proof (pinv_release g0 rc live (sess_key s) Hp) as [Hg1 Hl1].
+  destruct Hp as (Hs & Hnd & Hgeo & Hl).
+  unfold recv_delete. cbn [f_drop repaired rc_store rc_reg rc_last]. rewrite cp_key_s2c.
+  unfold pinv. cbn [rc_store rc_reg]. split; [|split; [|split]].
+  - rewrite Hs. unfold expected_store. rewrite map_adel. reflexivity.
+  - apply (nodup_adel keyeqb keyeqb_eq), Hnd.
+  - exact Hg1.
+  - intros x sid. rewrite Hl1. unfold owner. split.
+    + intros [(e & He & Hx) Hno]. exists e. split; [|exact Hx].
+      destruct e as [k' s']. apply (in_adel keyeqb keyeqb_eq). split; [|exact He].
+      intros ->. apply (Hno s'); [apply (aget_in keyeqb keyeqb_eq); assumption|].
+      exact (owner_claims g0 (sess_key s, s') x sid Hx).
+    + intros (e & He & Hx). destruct e as [k' s']. apply (in_adel keyeqb keyeqb_eq) in He. destruct He as [Hne He].
+      split; [exists (k', s'); auto|]. intros olds Eo G.
+      apply (aget_in keyeqb keyeqb_eq _ _ _ Hnd) in Eo.
+      exact (uniq_conflict g0 live (k', s') (sess_key s, olds) x Hu Hnd He Eo Hne (owner_claims g0 (k', s') x sid Hx) G).
+Qed.
+
+Lemma pinv_update g0 rc live s last' :
+  pinv g0 rc live -> uniq g0 live -> uniq g0 (aset keyeqb (sess_key s) s live) ->
+  pinv g0 (recv_update repaired (mkrecv last' (rc_store rc) (rc_reg rc)) (s2c s)) (aset keyeqb (sess_key s) s live).
+Proof.
+  intros Hp Hu Hu'. pose proof (pinv_release g0 rc live (sess_key s) Hp) as [Hg1 Hl1].
+  destruct Hp as (Hs & Hnd & Hgeo & Hl).
+  unfold recv_update. cbn [f_drop repaired rc_store rc_reg rc_last]. rewrite cp_key_s2c.
+  set (k := sess_key s) in *.
+  set (g1 := match aget keyeqb k (rc_store rc) with
+             | Some old => release_cp repaired (rc_reg rc) old | None => rc_reg rc end) in *.
+  assert (Hnd' : NoDup (map fst (aset keyeqb k s live))) by (apply (nodup_aset keyeqb keyeqb_eq), Hnd).
+  assert (Hin_s : In (k, s) (aset keyeqb k s live)) by (apply (in_aset keyeqb keyeqb_eq _ _ _ _ _ Hnd); auto).
+  unfold pinv. cbn [rc_store rc_reg]. split; [|split; [|split]].
+  - rewrite Hs. unfold expected_store. rewrite map_aset. reflexivity.
+  - exact Hnd'.
+  - intros c'. rewrite resv_reserve. apply Hg1.
+  - intros x sid. rewrite lease_at_reserve_cp.
+    assert (Hcl : claimed g1 (s2c s) x = true <-> In x (claims g0 (s2c s))).
+    { rewrite claimed_in. rewrite (claims_geo g1 g0 _ Hg1). tauto. }
+    (* an entry of another key that claims x conflicts with (k,s) when s claims x *)
+    assert (Hother : forall e sid', In e live -> fst e <> k -> In (x, sid') (resv_cp g0 (s2c (snd e))) ->
+                     In x (claims g0 (s2c s)) -> False).
+    { intros [k' s'] sid' He Hne Hx Hc.
+      assert (He' : In (k', s') (aset keyeqb k s live)) by (apply (in_aset keyeqb keyeqb_eq _ _ _ _ _ Hnd); auto).
+      exact (uniq_conflict g0 _ (k', s') (k, s) x Hu' Hnd' He' Hin_s Hne (owner_claims g0 (k', s') x sid' Hx) Hc). }
+    destruct (claimed g1 (s2c s) x) eqn:C.
+    + assert (Hc : In x (claims g0 (s2c s))) by (apply Hcl; reflexivity).
+      assert (Hnone : lease_at g1 x = None).
+      { destruct (lease_at g1 x) as [o|] eqn:E; [|reflexivity]. exfalso.
+        apply Hl1 in E. destruct E as [(e & He & Hx) Hno].
+        destruct e as [k' s']. destruct (keyeqb k' k) eqn:Ek.
+        - apply keyeqb_eq in Ek. subst k'. apply (Hno s'); [apply (aget_in keyeqb keyeqb_eq); assumption|].
+          exact (owner_claims g0 (k, s') x o Hx).
+        - apply (Hother (k', s') o He); [|exact Hx|exact Hc]. simpl. intros ->.
+          rewrite (proj2 (keyeqb_eq k k) eq_refl) in Ek. discriminate. }
+      rewrite Hnone. split.
+      * intros E. inversion E; subst sid. exists (k, s). split; [exact Hin_s|]. apply claims_in, Hc.
+      * intros (e & He & Hx). destruct e as [k' s'].
+        apply (in_aset keyeqb keyeqb_eq _ _ _ _ _ Hnd) in He. destruct He as [[-> ->]|[Hne He]].
+        -- rewrite (resv_sid _ _ _ _ Hx). reflexivity.
+        -- exfalso. exact (Hother (k', s') sid He Hne Hx Hc).
+    + assert (Hc : ~ In x (claims g0 (s2c s))) by (intros G; apply Hcl in G; congruence).
+      rewrite Hl1. split.
+      * intros [(e & He & Hx) Hno]. exists e. split; [|exact Hx]. destruct e as [k' s'].
+        apply (in_aset keyeqb keyeqb_eq _ _ _ _ _ Hnd). right. split; [|exact He].
+        intros ->. apply (Hno s'); [apply (aget_in keyeqb keyeqb_eq); assumption|].
+        exact (owner_claims g0 (k, s') x sid Hx).
+      * intros (e & He & Hx). destruct e as [k' s'].
+        apply (in_aset keyeqb keyeqb_eq _ _ _ _ _ Hnd) in He. destruct He as [[-> ->]|[Hne He]].
+        -- exfalso. apply Hc. exact (owner_claims g0 (k, s) x sid Hx).
+        -- split; [exists (k', s'); auto|]. intros olds Eo G.
+           apply (aget_in keyeqb keyeqb_eq _ _ _ Hnd) in Eo.
+           exact (uniq_conflict g0 live (k', s') (k, olds) x Hu Hnd He Eo Hne (owner_claims g0 (k', s') x sid Hx) G).
+Qed.
+
+Lemma live_fold_cons live e t : live_fold live (e :: t) = live_fold (live_step live (fst e) (snd e)) t.
+Proof. reflexivity. Qed.
+
+Lemma pinv_inorder g0 g evs : forall seq rc live,
+  last_of rc g = seq -> pinv g0 rc live ->
+  (forall i, (i <= length evs)%nat -> uniq g0 (live_fold live (firstn i evs))) ->
+  pinv g0 (recv_run repaired rc (reqs_from g seq evs)) (live_fold live evs).
+Proof.
+  induction evs as [|[s rel] t IH]; intros seq rc live Hl Hp Hu; [exact Hp|].
+  cbn [reqs_from]. rewrite recv_run_cons, live_fold_cons. cbn [fst snd].
+  pose proof (Hu 0%nat ltac:(simpl; lia)) as Hu0. simpl in Hu0.
+  pose proof (Hu 1%nat ltac:(simpl; lia)) as Hu1. simpl in Hu1. unfold live_fold in Hu1. simpl in Hu1.
+  apply (IH (seq + 1)%N).
+  - apply (last_of_step repaired rc (mkreq g (seq + 1) (act_of rel) (s2c s))). simpl. lia.
+  - rewrite recv_step_applied by (simpl; lia). cbv zeta. cbn [q_act q_cp q_srg q_seq].
+    destruct Hp as (Hs & Hrest). unfold live_step in *. destruct rel; simpl act_of.
+    + apply (pinv_delete g0 rc live s); [split; assumption|exact Hu0].
+    + apply (pinv_update g0 rc live s); [split; assumption|exact Hu0|exact Hu1].
+  - intros i Hi. specialize (Hu (S i) ltac:(simpl; lia)). simpl in Hu. exact Hu.
+Qed.
+
+(* a registry in which nothing is reserved yet *)
+Definition fresh (g : registry) : Prop := forall x, lease_at g x = None.
+
+Lemma owner_expected g0 live x sid : owner g0 live x sid <-> In (x, sid) (expected_leases g0 live).
+Proof.
+  unfold owner, expected_leases. rewrite in_flat_map. split; intros (e & A & B); exists e; auto.
+Qed.
+
+Lemma pools_exact g0 cap g evs d :
+  g <> 0%N -> (forall e, In e evs -> s_srg (fst e) = g) -> (N.of_nat (length evs) < n64)%N ->
+  fresh g0 ->
+  (forall i, (i <= length evs)%nat -> uniq g0 (live_run (firstn i evs))) ->
+  let reqs := snd (sender_run [(g, (0%N, new_ring cap))] evs) in
+  delivery reqs 0 d (length reqs) ->
+  forall x sid, lease_at (rc_reg (recv_run repaired (mkrecv [] [] g0) d)) x = Some sid <->
+                In (x, sid) (expected_leases g0 (live_run evs)).
+Proof.
+  intros Hg Hall Hlt Hf Hu reqs Hd x sid. unfold reqs in *.
+  destruct (stream_of_sender cap g evs Hg Hall Hlt) as [E _]. rewrite E in Hd.
+  rewrite (delivered_is_inorder g evs d (mkrecv [] [] g0) eq_refl Hd).
+  rewrite <- owner_expected.
+  assert (P0 : pinv g0 (mkrecv [] [] g0) []).
+  { split; [reflexivity|]. split; [constructor|]. split; [reflexivity|].
+    intros x' sid'. simpl. rewrite Hf. split; [discriminate|]. intros (e & [] & _). }
+  destruct (pinv_inorder g0 g evs 0%N (mkrecv [] [] g0) [] eq_refl P0 Hu) as (_ & _ & _ & Hl).
+  apply Hl.
+Qed.
+
+Lemma fresh_mk g : (forall np, In np (g_v4 g) -> a_leases (p_al (snd np)) = []) ->
+  (forall np, In np (g_na g) -> a_leases (p_al (snd np)) = []) ->
+  (forall np, In np (g_pd g) -> a_leases (d_al (snd np)) = []) -> fresh g.
+Proof.
+  intros H4 H6 H7 [[f p] k]. unfold lease_at, lease_v, lease_d.
+  assert (A : forall (P : Type) (l : list (N * P)) n v, aget N.eqb n l = Some v -> In (n, v) l).
+  { intros P l n v. induction l as [|[n0 v0] r IH]; simpl; [discriminate|].
+    destruct (N.eqb_spec n n0); [intros E; inversion E; subst; auto|auto]. }
+  destruct (N.eqb f 4).
+  { destruct (aget N.eqb p (g_v4 g)) as [pl|] eqn:E; [|reflexivity]. apply A in E. pose proof (H4 _ E) as Z. simpl in Z. rewrite Z. reflexivity. }
+  destruct (N.eqb f 6).
+  { destruct (aget N.eqb p (g_na g)) as [pl|] eqn:E; [|reflexivity]. apply A in E. pose proof (H6 _ E) as Z. simpl in Z. rewrite Z. reflexivity. }
+  destruct (N.eqb f 7); [|reflexivity].
+  destruct (aget N.eqb p (g_pd g)) as [d|] eqn:E; [|reflexivity]. apply A in E. pose proof (H7 _ E) as Z. simpl in Z. rewrite Z. reflexivity.
+Qed.
